@@ -6,6 +6,7 @@ package gcx
 
 import (
 	"encoding/json"
+	"flag"
 	"fmt"
 	"math"
 	"os"
@@ -289,6 +290,11 @@ type DimReg struct {
 	Enum    int    `json:"enum"`    // 1..3
 	Name    string `json:"name"`    // flag / environment variable name
 	Default int    `json:"default"` // builder default (index of the constant)
+	// Flag, when set, is handed to flag.Set(Name, *Flag) after WithDimension (the flag route).
+	// WithDimension registers the flag on the process-wide flag.CommandLine and binds it to the
+	// dimension object of the FIRST registration of that name, so RunCase gives every flagged
+	// dimension a name no earlier Builder of the process has used.
+	Flag *string `json:"flag,omitempty"`
 }
 
 // Input is everything that determines a load: registrations in order, environment, document.
@@ -296,6 +302,9 @@ type Input struct {
 	Dims []DimReg          `json:"dims"`
 	Env  map[string]string `json:"env"`
 	Doc  Tree              `json:"doc"`
+	// RawYaml, when set, is the text handed to FromBytes instead of the marshalled Doc (anchors,
+	// aliases, non-string keys: out-of-domain stream); Doc is then what the text decodes to.
+	RawYaml string `json:"raw_yaml,omitempty"`
 }
 
 // Table records ParseGeneric of the registration's enum on the given strings (sorted).
@@ -365,6 +374,9 @@ func Build(dims []DimReg) (b *gconfig.Builder, panicked any) {
 	b = gconfig.NewBuilder()
 	for _, d := range dims {
 		b = b.WithDimension(d.Name, Enums[d.Enum-1].Of(d.Default))
+		if d.Flag != nil {
+			_ = flag.Set(d.Name, *d.Flag) // an unparsable value leaves the error to the flag package
+		}
 	}
 	return b, nil
 }
